@@ -16,6 +16,28 @@ from aiomysensors import exceptions as amx  # noqa: E402
 from aiomysensors.gateway import Config, Gateway  # noqa: E402
 from aiomysensors.model.message import Message  # noqa: E402
 from aiomysensors.transport import Transport  # noqa: E402
+import aiomysensors.model.protocol.protocol_14 as _p14  # noqa: E402
+import time as _real_time  # noqa: E402
+
+
+class TimeShim:
+    """Replaces the `time` module attribute of protocol_14 (the repo's clock seam):
+    the wall clock every handler reads is the simulated one."""
+
+    def __init__(self, now_fn):
+        self._now = now_fn
+
+    def localtime(self, secs=None):
+        return _real_time.localtime(self._now() if secs is None else secs)
+
+    def gmtime(self, secs=None):
+        return _real_time.gmtime(self._now() if secs is None else secs)
+
+    def time(self):
+        return float(self._now())
+
+    def __getattr__(self, name):
+        return getattr(_real_time, name)
 
 
 def write_category(line: str) -> str:
@@ -146,6 +168,13 @@ class GwWorld:
             self.gateway.protocol_version = cfg["pin"]
         self._gen = None
         self._wmark = 0
+        self.clock = {"base": int(cfg.get("epoch", 1_700_000_000)), "jump": 0}
+        self._old_time = _p14.time
+        _p14.time = TimeShim(self.now)
+
+    def now(self) -> int:
+        """Simulated wall clock (epoch seconds)."""
+        return self.clock["base"] + self.clock["jump"] + int(self.loop.time())
 
     def log(self, actor, kind, *args) -> int:
         return self.elog.add(self.loop.time(), actor, kind, *args)
@@ -234,6 +263,7 @@ class GwWorld:
         return obs
 
     def close(self) -> None:
+        _p14.time = self._old_time
         try:
             self.relisten()
         except Exception:  # noqa: BLE001
